@@ -84,7 +84,8 @@ def build_reply(step, state, err, subset, order, valid, stranger="none", where="
 
 # an item the step does not define, in front of everything else: RetryDelay (it accompanies a Backoff error in the specification), a vendor item,
 # a separator.  "whichever other fields the reply does or does not carry"
-STRANGERS = {"none": [], "retry-delay": [(0x08, b"\x1e")], "vendor": [(0xF0, b"\x01\x02")], "retry+vendor": [(0x08, b"\x1e\x00"), (0xF0, b"")], "separator": [(0xFF, b"")]}
+STRANGERS = {"none": [], "retry-delay": [(0x08, b"\x1e")], "vendor": [(0xF0, b"\x01\x02")], "retry+vendor": [(0x08, b"\x1e\x00"), (0xF0, b"")], "separator": [(0xFF, b"")],
+             "vendor-255": [(0xF0, bytes(255))], "vendor-510": [(0xF1, bytes(range(255)) * 2)]}      # a value of exactly k x 255 bytes: its last fragment is a full one
 
 
 def run_cell(case, R):
@@ -298,7 +299,7 @@ SPEC = Property(
         Layer("protocol-table", run_cell, enumerate=enum_table, exhaustive=True,
               space="5 steps x 13 states x 13 errors x 2^|other fields| x 4 (order, decode) combinations (quick: 2 combinations for setup M4/M6)", min_nontrivial=3000),
         Layer("unexpected-items", run_cell, enumerate=enum_strangers, exhaustive=True,
-              space="5 steps x 3 states x 5 errors x 4 kinds of undefined item (RetryDelay, vendor, both, separator) x 2 positions x 2 decode styles, all defined fields present"),
+              space="5 steps x 3 states x 5 errors x 6 kinds of undefined item (RetryDelay, vendor, both, separator, values of 255 and 510 bytes) x 2 positions x 2 decode styles, all defined fields present"),
         Layer("resume-table", run_resume_cell, enumerate=enum_resume_table, exhaustive=True,
               space="verify M2 of a resumed exchange: 13 states x 13 errors x 2 orders on top of a valid resume reply", min_nontrivial=200),
         *C04_BLE_LAYERS,
